@@ -503,6 +503,88 @@ fn mode_c08(w: &mut CaseWriter, args: &Args, rng: &mut Rng) {
         probes.sort(); probes.dedup(); probes.truncate(10);
         history_case_n(w, nsrc, &ops, &purge_at, &keys6, &probes, "");
     }
+    // merges in the purging replica's further life: replica 0 runs phase 1 (puts/deletes),
+    // hears every origin again more than a period later, purges; replica 1 is a STALE peer that
+    // has seen only (some of) phase 1; replica 0 merges it in; then late operations of the
+    // deleting origins - not newer than a purged delete - must still be refused, with the answer
+    // of will_apply, and the cut-off probes must not move back.
+    let n_merge = if args.thorough() { 20_000 } else { 3_000 };
+    for _ in 0..n_merge {
+        let nsrc = 1 + rng.below(2) as usize;
+        let keys6 = [1u64, 2, 3, 4, 5, 6];
+        let norig = 1 + rng.below(2);
+        let b0 = *rng.pick(&[5u64, base]);
+        let mut phase1: Vec<Op> = Vec::new();
+        for i in 0..(2 + rng.below(5)) {
+            let t = mk(b0 + i * 3 + rng.below(3), rng.below(2), 1 + rng.below(norig));
+            if phase1.iter().any(|o| o.t == t) { continue; }
+            phase1.push(Op { del: rng.chance(3, 5), src: rng.below(nsrc as u64) as usize, key: *rng.pick(&keys6), t });
+        }
+        let mut toks: Vec<String> = Vec::new();
+        let mut probes: Vec<u64> = phase1.iter().map(|o| o.t).collect();
+        probes.sort(); probes.dedup(); probes.truncate(8);
+        // the stale peer (register 1): a prefix of phase 1, every origin through every source
+        toks.push("@1".into());
+        let cut = rng.below(phase1.len() as u64 + 1) as usize;
+        for o in &phase1[..cut] {
+            for src in 0..nsrc {
+                toks.push(Op { src, ..*o }.tok());
+            }
+        }
+        // the purging replica (register 0)
+        toks.push("@0".into());
+        for o in &phase1 { toks.push(o.tok()); }
+        let gap = *rng.pick(&[W_TICKS + 20, 2 * W_TICKS]);
+        let mut c = 0u64;
+        for origin in 1..=norig {
+            for src in 0..nsrc {
+                c += 1;
+                toks.push(Op { del: false, src, key: 0x20 + c, t: mk(b0 + gap + c, 0, origin) }.tok());
+            }
+        }
+        toks.push("p".into());
+        toks.push(probes_tok(&probes));
+        toks.push("M:1".into());
+        toks.push(probes_tok(&probes));
+        // late operations of phase-1 stamps (and one tick below), any key, any source
+        let mut late: Vec<(bool, usize, u64, u64)> = Vec::new();
+        for o in &phase1 {
+            if rng.chance(2, 3) {
+                late.push((rng.chance(1, 2), rng.below(nsrc as u64) as usize, *rng.pick(&keys6), o.t));
+            }
+        }
+        for (del, src, key, t) in &late {
+            toks.push(format!("w:{:x}:{:x}", key, t));
+            toks.push(Op { del: *del, src: *src, key: *key, t: *t }.tok());
+        }
+        toks.push(probes_tok(&probes));
+        let case = format!("seq {} 0 {}", nsrc, toks.join(" "));
+        let tv: Vec<&str> = toks.iter().map(|s| s.as_str()).collect();
+        let res = match nsrc {
+            1 => no_panic(|| interpret::<OrSWotSet<1>>(&tv)),
+            _ => no_panic(|| interpret::<OrSWotSet<2>>(&tv)),
+        };
+        let res = match res {
+            Some(r) => r,
+            None => {
+                w.case(&case, "panic");
+                w.fail("panic", &case, "the set panicked");
+                continue;
+            },
+        };
+        w.case(&case, &res);
+        w.stats.hit("purge_then_merge_of_a_stale_peer");
+        // oracle on the implementation's own output: the cut-off bits after the merge are not
+        // below those after the purge (a probe that was before the cut-off stays before it)
+        let dumps: Vec<&str> = res.split_whitespace().filter(|t| t.starts_with('E')).collect();
+        if dumps.len() >= 2 {
+            let bits = |d: &str| d.rsplit("B[").next().unwrap_or("").trim_end_matches(']').to_string();
+            let (b_purge, b_merge) = (bits(dumps[0]), bits(dumps[1]));
+            if b_purge.chars().zip(b_merge.chars()).any(|(x, y)| x == '1' && y == '0') {
+                w.fail("cut-off-moved-back-by-a-merge", &case, &format!("after purge {b_purge}, after merge {b_merge}"));
+            }
+        }
+    }
     w.stats.add("exhaustive_histories", n_ex);
 }
 
